@@ -226,6 +226,10 @@ func (w *world) doStep(op string, p *profile) {
 		w.advance(rapid.SampledFrom([]time.Duration{time.Nanosecond, time.Millisecond, time.Second, 2 * time.Second}).Draw(w.rt, "advance"))
 	case "tick":
 		w.stepTick()
+	case "raceTimer":
+		w.stepExecuteRacingTimer(p.instances)
+	case "raceCancel":
+		w.stepCompleteRacingCancel()
 	case "parkSend":
 		w.stepParkSend()
 	case "releaseSend":
